@@ -104,8 +104,19 @@ theorem applyOp_vecvec_err (tr : Tr α) (i1 i2 : Item α) (o : Char) (k : Nat) (
   simp only [(binOps_ne ho).1, (binOps_ne ho).2, if_false, isFloat, l1, ho, itemHasAF, hasAF_of_getAF g1, hasAF_of_getAF g2,
     opBin, hr, Bool.not_true, Bool.false_eq_true]
 
-/-- feature ∘ number: division by a zero number raises before anything is created; otherwise the
-    temporary `#k` is left behind -/
+/-- feature ∘ number through the operator object, the computation raising (a zero number under `/` included, since
+    fixes 5676890 / 2dd86ce): the temporary `#k` (zeros) has been created and is left behind -/
+theorem opScal_fresh_err (tr : Tr α) (o : Char) (s1 : Str) (k : Nat) (a : List α) (b : α) (err : Err)
+    (hn : tr.n ≠ 0) (hf : lookup (tmpName k) tr.feats = none) (g1 : getAF tr s1 = .ok a) (hv : vsOp o a b = .error err) :
+    ∃ tr', opScal tr o s1 b (tmpName k) = (.error err, tr') ∧ Step tr tr' k (k + 1) :=
+  ⟨_, runVoid_fresh_err tr k _ err hn hf (by simp only [getAF_ext _ g1]; exact hv), step_one tr k (konst tr zero)⟩
+
+theorem opScalRev_fresh_err (tr : Tr α) (o : Char) (s2 : Str) (k : Nat) (a : List α) (b : α) (err : Err)
+    (hn : tr.n ≠ 0) (hf : lookup (tmpName k) tr.feats = none) (g2 : getAF tr s2 = .ok a) (hv : svOp o b a = .error err) :
+    ∃ tr', opScalRev tr o s2 b (tmpName k) = (.error err, tr') ∧ Step tr tr' k (k + 1) :=
+  ⟨_, runVoid_fresh_err tr k _ err hn hf (by simp only [getAF_ext _ g2]; exact hv), step_one tr k (konst tr zero)⟩
+
+/-- feature ∘ number: the temporary `#k` (zeros) is left behind -/
 theorem applyOp_veclit_err (tr : Tr α) (i1 i2 : Item α) (o : Char) (k : Nat) (a : List α) (b : α) (err : Err)
     (ho : binOps.contains o = true) (hn : tr.n ≠ 0) (hf : Fresh tr k) (hl : NoLitNames tr)
     (h1 : itemVal tr i1 = some (.vec a)) (h2 : itemVal tr i2 = some (.lit b)) (hv : vsOp o a b = .error err) :
@@ -113,62 +124,39 @@ theorem applyOp_veclit_err (tr : Tr α) (i1 i2 : Item α) (o : Char) (k : Nat) (
   obtain ⟨s1, rfl, l1, g1⟩ := itemVal_vec h1
   obtain ⟨_, t2, _⟩ := itemVal_lit h2
   have hA2 := itemHasAF_lit hl h2
-  cases hz : (o = '/' && isZero b) with
-  | true =>
-    have hz' := hz
-    simp only [Bool.and_eq_true, decide_eq_true_eq] at hz'
-    obtain ⟨ho', hzb⟩ := hz'
-    have herr : err = "err:zerodiv" := by
-      subst ho'
-      simp [vsOp, hzb] at hv
-      exact hv.symm
-    subst herr
-    refine ⟨tr, ?_, (Step.refl tr k).mono (by omega)⟩
-    unfold applyOperation
-    cases i2 with
-    | tok s2 =>
-      have hA2' : hasAF tr s2 = false := by simpa [itemHasAF] using hA2
-      simp only [(binOps_ne ho).1, (binOps_ne ho).2, if_false, isFloat, l1, ho, itemHasAF, hasAF_of_getAF g1, hA2',
-        opScal, Bool.not_true, Bool.false_eq_true, t2, hz, if_true]
-    | num v =>
-      simp only [(binOps_ne ho).1, (binOps_ne ho).2, if_false, isFloat, l1, ho, itemHasAF, hasAF_of_getAF g1,
-        opScal, Bool.not_true, Bool.false_eq_true, t2, hz, if_true]
-    | unit => simp [itemVal] at h2
-  | false =>
-    have hr := runVoid_fresh_err tr k (fun t => do let a ← getAF t s1; vsOp o a b) err hn (hf k (Nat.le_refl k))
-      (by simp only [getAF_ext _ g1]; exact hv)
-    refine ⟨_, ?_, step_one tr k (konst tr zero)⟩
-    unfold applyOperation
-    cases i2 with
-    | tok s2 =>
-      have hA2' : hasAF tr s2 = false := by simpa [itemHasAF] using hA2
-      simp only [(binOps_ne ho).1, (binOps_ne ho).2, if_false, isFloat, l1, ho, itemHasAF, hasAF_of_getAF g1, hA2',
-        opScal, hr, Bool.not_true, Bool.false_eq_true, t2, hz]
-    | num v =>
-      simp only [(binOps_ne ho).1, (binOps_ne ho).2, if_false, isFloat, l1, ho, itemHasAF, hasAF_of_getAF g1,
-        opScal, hr, Bool.not_true, Bool.false_eq_true, t2, hz]
-    | unit => simp [itemVal] at h2
+  obtain ⟨tr', hr, hs⟩ := opScal_fresh_err tr o s1 k a b err hn (hf k (Nat.le_refl k)) g1 hv
+  refine ⟨tr', ?_, hs⟩
+  unfold applyOperation
+  cases i2 with
+  | tok s2 =>
+    have hA2' : hasAF tr s2 = false := by simpa [itemHasAF] using hA2
+    simp only [(binOps_ne ho).1, (binOps_ne ho).2, if_false, isFloat, l1, ho, itemHasAF, hasAF_of_getAF g1, hA2',
+      hr, Bool.not_true, Bool.false_eq_true, t2]
+  | num v =>
+    simp only [(binOps_ne ho).1, (binOps_ne ho).2, if_false, isFloat, l1, ho, itemHasAF, hasAF_of_getAF g1,
+      hr, Bool.not_true, Bool.false_eq_true, t2]
+  | unit => simp [itemVal] at h2
 
 /-- number ∘ feature: the temporary `#k` (zeros) is left behind -/
 theorem applyOp_litvec_err (tr : Tr α) (i1 i2 : Item α) (o : Char) (k : Nat) (a : List α) (b : α) (err : Err)
     (ho : binOps.contains o = true) (hn : tr.n ≠ 0) (hf : Fresh tr k) (hl : NoLitNames tr)
     (h1 : itemVal tr i1 = some (.lit b)) (h2 : itemVal tr i2 = some (.vec a)) (hv : svOp o b a = .error err) :
-    applyOperation tr i1 i2 o k = (.error err, ext tr [(tmpName k, konst tr zero)]) := by
+    ∃ tr', applyOperation tr i1 i2 o k = (.error err, tr') ∧ Step tr tr' k (k + 1) := by
   obtain ⟨s2, rfl, l2, g2⟩ := itemVal_vec h2
   obtain ⟨f1, t1, _⟩ := itemVal_lit h1
   have hA1 := itemHasAF_lit hl h1
-  have hr := runVoid_fresh_err tr k (fun t => do let a ← getAF t s2; svOp o b a) err hn (hf k (Nat.le_refl k))
-    (by simp only [getAF_ext _ g2]; exact hv)
+  obtain ⟨tr', hr, hs⟩ := opScalRev_fresh_err tr o s2 k a b err hn (hf k (Nat.le_refl k)) g2 hv
+  refine ⟨tr', ?_, hs⟩
   unfold applyOperation
   cases i1 with
   | tok s1 =>
     have hA1' : hasAF tr s1 = false := by simpa [itemHasAF] using hA1
     have l1 : litOf (α := α) s1 = some b := by simpa [isFloat] using f1
     simp only [(binOps_ne ho).1, (binOps_ne ho).2, if_false, isFloat, l1, l2, ho, itemHasAF, hasAF_of_getAF g2, hA1',
-      opScalRev, hr, Bool.not_true, Bool.false_eq_true, t1]
+      hr, Bool.not_true, Bool.false_eq_true, t1]
   | num v =>
     simp only [(binOps_ne ho).1, (binOps_ne ho).2, if_false, isFloat, l2, ho, itemHasAF, hasAF_of_getAF g2,
-      opScalRev, hr, Bool.not_true, Bool.false_eq_true, t1]
+      hr, Bool.not_true, Bool.false_eq_true, t1]
   | unit => simp [itemVal] at h1
 
 /-- a failing binary operator of the machine raises the error of `nodeBin` on the operands' values; at most
@@ -183,7 +171,7 @@ theorem applyOp_bin_err (tr : Tr α) (i1 i2 : Item α) (o : Char) (k : Nat) (a b
     | lit y =>
       exact ⟨tr, applyOp_litlit_err tr i1 i2 o k x y err ho h1 h2 (map_error hv), (Step.refl tr k).mono (by omega)⟩
     | vec y =>
-      exact ⟨_, applyOp_litvec_err tr i1 i2 o k y x err ho hn hf hl h1 h2 (map_error hv), step_one tr k _⟩
+      exact applyOp_litvec_err tr i1 i2 o k y x err ho hn hf hl h1 h2 (map_error hv)
   | vec x =>
     cases b with
     | lit y => exact applyOp_veclit_err tr i1 i2 o k x y err ho hn hf hl h1 h2 (map_error hv)
@@ -516,9 +504,12 @@ example : CallsOK eDiv ∧ CallsOK eSqrt ∧ CallsOK eDeep ∧ CallsOK eType := 
   simp only [eDiv, eSqrt, eDeep, eType, CallsOK, isNumLeaf]; decide
 example : Bound trE eDeep := ⟨⟨⟨_, rfl⟩, ⟨_, rfl⟩⟩, ⟨_, rfl⟩, ⟨_, rfl⟩⟩
 
-/-- `a/0`: division of a feature by the number 0 raises before anything is created -/
+/-- `a/0`: division of a feature by the number 0 raises at the first observation (`a[0] / 0`), the temporary `#0` having been
+    created as for every other scalar operator (fixes 5676890 / 2dd86ce; it used to raise on `1.0 / 0` before anything was
+    created); the purge of `operate` removes it -/
 example : denoteM trE eDiv = .error "err:zerodiv" := by rfl
-example : evalTokens trE (outputName :: (post eDiv ++ [['=']])) false = (.error "err:zerodiv", trE) := by rfl
+example : evalTokens trE (outputName :: (post eDiv ++ [['=']])) false
+    = (.error "err:zerodiv", ext trE [(tmpName 0, [0, 0, 0])]) := by rfl
 /-- `SQRT{a}` with a negative value: the temporary `#0` was created before the computation and is left behind
     by the evaluation; the purge of `operate` removes it -/
 example : denoteM trE eSqrt = .error "err:value" := by rfl
